@@ -349,9 +349,18 @@ def fam_frag(rng, n, prefix):
         rejected_at = None
         dts = rng.choice([0, 0, 9000, 12345, 2**33])
         step = rng.choice([3000, 3000, 1, 1500, 90000])
+        seg_first = None          # decode time of the first sample queued since the last flush
+        after_flush = None        # (first, last) decode times of the segment just flushed
         for _ in range(L):
             k = rng.below(10)
+            if after_flush is not None and after_flush[0] < after_flush[1] and rng.chance(1, 2):
+                # first write after a flush, going back INTO the span of the segment just emitted: must be rejected
+                d = rng.range(after_flush[0], after_flush[1] - 1)
+                c.o("fw", "%x" % d, "%x" % d, hx(rng.bytes(rng.choice([1, 9]))), rng.below(2))
+                after_flush = None
+                continue
             if k < 6:
+                after_flush = None
                 vstep = step if rng.chance(3, 4) else rng.choice([0, 1, 2999, 10**6])
                 d = dts
                 if rng.chance(1, 10) and dts > 0:
@@ -367,9 +376,15 @@ def fam_frag(rng, n, prefix):
                     pts = d - step
                 c.o("fw", "%x" % pts, "%x" % d, hx(rng.bytes(rng.choice([0, 1, 9, 30]))), rng.below(2))
                 if d >= dts:
+                    if seg_first is None:
+                        seg_first = d
+                    seg_last = d
                     dts = d + vstep
             elif k == 6:
                 c.o("ff")
+                if seg_first is not None:
+                    after_flush = (seg_first, seg_last)
+                seg_first = None
             elif k == 7:
                 c.o("fr")
             elif k == 8:
@@ -461,7 +476,11 @@ def fam_fn_codec(rng, n, prefix):
                                bytes([0x0A]) + bytes([0xFF] * 8) + bytes([0x7F]) + rng.bytes(2),
                                bytes([0x0A]) + bytes([0xFF] * 7) + bytes([0x7F]) + rng.bytes(2),
                                bytes([0x0A]) + bytes([0xFF] * 4) + bytes([0x0F]) + rng.bytes(2),
-                               bytes([0xFF] * 9) + bytes([0x01]), bytes([0x80] * 9) + bytes([0x01]), bytes([0xFF] * 10)])
+                               bytes([0xFF] * 9) + bytes([0x01]), bytes([0x80] * 9) + bytes([0x01]), bytes([0xFF] * 10),
+                               # complete leading OBU(s), then an OBU whose declared size runs past the end of the buffer
+                               bytes([0x12, 0x00, 0x32, 0x03, 0x10, 0x00]), bytes([0x12, 0x00, 0x12, 0x00, 0x32, 0x05, 0x10]),
+                               av1_key(rng)[:-rng.range(1, 4)], obu(2, b"") + av1_key(rng)[:-rng.range(1, 6)],
+                               obu(2, b"") + obu(15, rng.bytes(3)) + bytes([0x0A, 0x20]) + rng.bytes(rng.range(0, 8))])
             d = mutate(rng, base) if rng.chance(1, 2) else base
             name = rng.choice(["read_leb128", "parse_obu_header", "obu_iter", "extract_av1_config", "is_av1_keyframe"])
             out.append(fn_case("%s%d" % (prefix, i), name, hx(d)))
@@ -996,6 +1015,39 @@ def fam_cross_2p32(rng, n, prefix):
                 c.o("wv", fb(t / 90000.0), hx(video_key(rng, codec) if k == 0 else video_delta(rng, codec)), 1 if k == 0 else 0)
             else:
                 c.o("wa", fb(t / 90000.0), hx(audio_frame(rng, cfg["audio"])))
+        c.o("fin", 0)
+        out.append(c)
+    return out
+
+
+# ---------- long convenience-call histories (C15/C17/C03): clock drift only shows after seconds ----------
+def fam_long_encode(rng, n, prefix):
+    """several seconds of encode_video / encode_audio at sample rates whose frame duration is not a whole
+    number of ticks (44.1 kHz family), so that a per-frame rounding of the automatic clock accumulates
+    until it crosses a video frame boundary"""
+    out = []
+    for i in range(n):
+        rate = rng.choice([44100, 22050, 11025, 44100])
+        codec = rng.choice(["h264", "h264", "h265"])
+        c = Case("%s%d" % (prefix, i), "mux")
+        c.b("video", codec, "280", "1e0")
+        c.b("audio", "aac-lc", "%x" % rate, "2")
+        c.b("fast", rng.below(2))
+        ms = rng.choice([33, 40])
+        nv = rng.range(90, 130)
+        frame_s = 1024.0 / rate
+        ta = tv = 0.0
+        c.o("ev", hx(h264_key(rng, extra=False) if codec == "h264" else h265_key(rng, extra=False)), "%x" % ms)
+        tv += ms / 1000.0
+        k = 1
+        while k < nv:
+            if ta <= tv:
+                c.o("ea", hx(adts(rng, payload_len=rng.range(1, 6))), "400")
+                ta += frame_s
+            else:
+                c.o("ev", hx((b"\x00\x00\x01\x41" if codec == "h264" else b"\x00\x00\x01\x02\x01") + rng.bytes(3)), "%x" % ms)
+                tv += ms / 1000.0
+                k += 1
         c.o("fin", 0)
         out.append(c)
     return out
